@@ -46,4 +46,4 @@ json.dump(meta,open(os.path.join(d,'meta.json'),'w'),indent=1)
 print("stored", d, meta["confirmed"], meta["checks_run_quick_tier"])
 PY
 rm -f "$d/agent_meta.json"
-rm -f /verif/.cache/bin/*.$(echo -n "$wt" | sha256sum | cut -c1-8).test
+tag=$(echo -n "$wt" | sha256sum | cut -c1-8); rm -f /verif/.cache/bin/*.$tag.test; rm -rf /verif/.cache/out/*-$tag /verif/.cache/alt-$tag.mod /verif/.cache/alt-$tag.sum
